@@ -511,7 +511,7 @@ def run_case(case, ctx):
 # MANIFEST-BEGIN
 MANIFEST = {
     'technique': 'reference-model monitor per backend configuration (each backend against the independent semantics) + sanitizers on generated code: gfortran -fcheck=all for f2py builds, jax checkify index checks, write-protected parameter arrays',
-    'level_text': 'Generated models are compiled for NumPy, PyTorch, JAX and Fortran in float32/float64, vectorized where accepted; the vector field at random states with perturbed parameters, the returned argument values, fixed-step trajectories for every supported solver name (with white-noise inputs and ring-buffer delays where accepted), adaptive trajectories and the interpolation helpers probed at chosen times are each compared with the independent reference, so that agreement between backends follows and common-mode errors cannot hide. Generated Fortran runs under -fcheck=all (a run-time error aborts the case process and is reported), JAX probes run under checkify index checks, NumPy probes with read-only parameters. Fixed-step runs also use sampling steps that are 2-5 integration steps (each backend has its own storage loop), with extrinsic inputs. Further families: numeric literals of very small / large magnitude (float64 tolerance 2e-10, which resolves single-precision literals), relaxation oscillators integrated adaptively at rtol 1e-6 on every backend (rejected steps). Further: the sign function and probe points with states exactly 0.0; hand-written equations with rational numbers (x**(1/3), 2/3, ^ and **) on every backend against direct arithmetic; both Heun stages use the input sample of their step on every backend; probe family: a constant declared with an integer default on Fortran (recorded finding). Three or four Fortran builds in one process under one file name must each be the model they were asked for; long right-hand sides (products of long identifiers, nested calls) exercise the line wrapping of the Fortran printer on every backend against direct arithmetic. Held on observed models only.',
+    'level_text': 'Generated models are compiled for NumPy, PyTorch, JAX and Fortran in float32/float64, vectorized where accepted; the vector field at random states with perturbed parameters, the returned argument values, fixed-step trajectories for every supported solver name (with white-noise inputs and ring-buffer delays where accepted), adaptive trajectories and the interpolation helpers probed at chosen times are each compared with the independent reference, so that agreement between backends follows and common-mode errors cannot hide. Generated Fortran runs under -fcheck=all (a run-time error aborts the case process and is reported), JAX probes run under checkify index checks, NumPy probes with read-only parameters. Fixed-step runs also use sampling steps that are 2-5 integration steps (each backend has its own storage loop), with extrinsic inputs. Further families: numeric literals of very small / large magnitude (float64 tolerance 2e-10, which resolves single-precision literals), relaxation oscillators integrated adaptively at rtol 1e-6 on every backend (rejected steps). Further: the sign function and probe points with states exactly 0.0; hand-written equations with rational numbers (x**(1/3), 2/3, ^ and **) on every backend against direct arithmetic; both Heun stages use the input sample of their step on every backend; probe family: a constant declared with an integer default on Fortran (recorded finding). Three or four Fortran builds in one process under one file name must each be the model they were asked for; long right-hand sides (products of long identifiers, nested calls) exercise the line wrapping of the Fortran printer on every backend against direct arithmetic. Probe points include states that are tiny but not zero (1e-9 .. 1e-120) next to states that are exactly zero. Held on observed models only.',
     'level_note': 'Trusted: vp/ref.py. float32 builds at rtol 5e-4 on well-conditioned points. Each case imports its backend inside the forked case process (no fork after torch/jax initialisation).',
 }
 # MANIFEST-END
